@@ -151,7 +151,8 @@ def container_header(schema, coll: Dict[str, Any]) -> str:
         out.append(f"{opn}typedef DataVector<{el}> {short}; {close}")
     else:
         out.append(f"{opn}typedef std::vector<{el}> {short}; {close}")
-    out.append(f'MON_CNAME({cont}, "{cont}")')
+    guard = "MON_CNAME_" + "".join(ch if ch.isalnum() else "_" for ch in cont)
+    out.append(f'#ifndef {guard}\n#define {guard}\nMON_CNAME({cont}, "{cont}")\n#endif')
     return "\n".join(out) + "\n"
 
 
